@@ -36,6 +36,8 @@ Definition p3 {B} (a : Z * list Z * B) : Z * list Z := fst a.
 Definition p5 {B C D} (a : Z * list Z * B * C * D) : Z * list Z := fst (fst (fst a)).
 Definition pn {B C} (a : B * C * Z * list Z) : Z * list Z := (snd (fst a), snd a).
 Definition pt {B} (a : B * Z * list Z) : Z * list Z := (snd (fst a), snd a).
+(* for results that carry no look-ahead: only the rest counts *)
+Definition pr {B} (a : B * list Z) : Z * list Z := (-1, snd a).
 
 Lemma check_pos c : check c = LOk tt -> 0 < c.
 Proof. unfold check. destruct (c =? 0) eqn:E; [discriminate|]. destruct (c <? 0) eqn:F; [discriminate|]. lia. Qed.
@@ -101,21 +103,42 @@ Proof.
     rewrite msr_nonneg by assumption. cbn. lia.
 Qed.
 
-(* ---- a small tactic for straight-line code ---- *)
-Ltac gsplit :=
-  repeat match goal with
-  | p : (_ * _)%type |- _ => destruct p
-  end; cbn [fst snd p2 p3 p5 pn pt] in *.
+(* ---- tactics for straight-line code ---- *)
+Lemma lbind_assoc {A B C} (x : lres A) (g : A -> lres B) (f : B -> lres C) :
+  lbind (lbind x g) f = lbind x (fun a => lbind (g a) f).
+Proof. destruct x; reflexivity. Qed.
 
-Ltac gnext :=
+Ltac msr_lia :=
+  unfold msr in *; cbn [fst snd p2 p3 p5 pn pt pr] in *;
+  repeat match goal with
+  | H : context [(?c <? 0)] |- _ => destruct (Z.ltb_spec c 0)
+  | |- context [(?c <? 0)] => destruct (Z.ltb_spec c 0)
+  end; cbn [Nat.add length] in *; try lia.
+
+Lemma digits_good_strict base ch rest acc ds inv :
+  (if base <=? 10 then is_decimal ch else is_hex ch) || (ch =? 95) = true ->
+  good p5 (length rest) (digits base ch rest acc ds inv).
+Proof.
+  intros W. destruct rest as [|c r]; cbn [digits]; rewrite W.
+  - cbn. lia.
+  - destruct (check_cases c) as [[E P]|[e [E N]]]; rewrite E; cbn [lbind]; [|exact N].
+    eapply good_weaken; [apply digits_good|]. rewrite msr_cons by exact P. cbn. lia.
+Qed.
+
+Ltac gstep :=
   match goal with
-  | |- good _ _ (lbind (next ?r) _) =>
-      eapply good_bind; [apply next_good|]; intros ? ?; gsplit
+  | |- good _ _ (lbind (next _) _) => eapply good_bind; [apply next_good|]; intros [? ?] ?
   | |- good _ _ (lbind (digits _ _ _ _ _ _) _) =>
-      eapply good_bind; [apply digits_good|]; intros ? ?; gsplit
+      eapply good_bind; [apply digits_good|]; intros [[[[? ?] ?] ?] ?] ?
+  | |- good _ _ (lbind (if ?c then _ else _) _) => destruct c eqn:?
+  | |- good _ _ (lbind (LOk _) _) => cbn [lbind]
+  | |- good _ _ (lbind (LErr _) _) => cbn [lbind]
+  | |- good _ _ (lbind (lbind _ _) _) => rewrite lbind_assoc
+  | |- good _ _ (lbind (let (_, _) := ?p in _) _) => destruct p
   | |- good _ _ (if ?c then _ else _) => destruct c eqn:?
+  | |- good _ _ (let (_, _) := ?p in _) => destruct p
   | |- good _ _ (LErr _) => apply good_err; discriminate
-  | |- good _ _ (LOk _) => cbn [good fst snd p2 p3 p5 pn pt]; try lia
+  | |- good _ _ (LOk _) => cbn [good]; msr_lia
   end.
 
 Section L.
@@ -124,78 +147,422 @@ Variable L : GoLib.
 Lemma scan_number_tail_good tok base prefix ch rest acc digSep inv sd :
   good pn (msr ch rest) (scan_number_tail L tok base prefix ch rest acc digSep inv sd).
 Proof.
-  unfold scan_number_tail.
-  eapply good_bind with (pa := fun a : tkind * Z * list Z * list Z * Z * Z =>
-                                 (snd (fst (fst (fst (fst a)))), snd (fst (fst (fst a))))) (na := msr ch rest).
-  { destruct sd; [|cbn; lia].
-    eapply good_bind; [apply digits_good|]. intros a Ha. gsplit. cbn. exact Ha. }
-  intros a Ha. gsplit.
-  eapply good_bind with (pa := fun a : tkind * Z * list Z * list Z * Z =>
-                                 (snd (fst (fst (fst a))), snd (fst (fst a)))) (na := msr z1 l0).
-  { destruct (lower z1 =? 101) eqn:E1.
-    - destruct (negb (prefix =? 0) && negb (prefix =? 48)); [apply good_err; discriminate|].
-      assert (0 <= z1).
-      { destruct (0 <=? z1) eqn:Z0; [lia|]. unfold lower in E1.
-        assert (Z.lor 32 z1 < 0) by (apply Z.lor_neg; lia). lia. }
-      eapply good_bind; [apply next_good|]. intros a1 Ha1. gsplit.
-      eapply good_bind with (pa := @p3 (list Z)) (na := length l0).
-      { destruct ((z2 =? 43) || (z2 =? 45)) eqn:E2.
-        - eapply good_bind; [apply next_good|]. intros a2 Ha2. gsplit. cbn.
-          assert (0 <= z2) by lia. rewrite msr_nonneg in Ha1 by assumption. lia.
-        - cbn. exact Ha1. }
-      intros a2 Ha2. gsplit.
-      eapply good_bind; [apply digits_good|]. intros a3 Ha3. gsplit.
-      destruct (Z.land z5 1 =? 0); [apply good_err; discriminate|].
-      cbn. rewrite msr_nonneg by assumption. lia.
-    - destruct (is_ident_rune L (lower z1) true); [apply good_err; discriminate|]. cbn. lia. }
-  intros a1 Ha1. gsplit.
-  repeat gnext.
+  unfold scan_number_tail. repeat gstep.
 Qed.
 
 Lemma scan_number_good ch rest sd :
-  0 <= ch -> good pn (msr ch rest) (scan_number L ch rest sd).
+  (sd = false -> is_decimal ch = true) ->
+  good pn (if sd then msr ch rest else length rest) (scan_number L ch rest sd).
 Proof.
-  intros Hch. unfold scan_number. destruct sd; [apply scan_number_tail_good|].
-  eapply good_bind with (pa := fun a : Z * Z * Z * Z * list Z * list Z =>
-                                 (snd (fst (fst a)), snd (fst a))) (na := msr ch rest).
-  { destruct (ch =? 48) eqn:E0; [|cbn; lia].
-    eapply good_bind; [apply next_good|]. intros a Ha. gsplit.
-    rewrite msr_nonneg by assumption.
-    assert (NX: forall (k : Z * Z * Z) , good (fun a : Z * Z * Z * Z * list Z * list Z =>
-                 (snd (fst (fst a)), snd (fst a))) (S (length rest))
-                 (lbind (next l) (fun '(c, r) => LOk (k, c, r, [48] ++ [z])))).
-    { intros k. eapply good_bind; [apply next_good|]. intros a1 Ha1. gsplit. cbn.
-      destruct (z <? 0) eqn:Zn.
-      - unfold msr in Ha. rewrite Zn in Ha. cbn in Ha. lia.
-      - unfold msr in Ha. rewrite Zn in Ha. cbn in Ha. lia. }
-    destruct (lower z =? 120); [apply (NX (16, 120, 0))|].
-    destruct (lower z =? 111); [apply (NX (8, 111, 0))|].
-    destruct (lower z =? 98); [apply (NX (2, 98, 0))|].
-    destruct (lower z =? 46); [cbn; lia|].
-    destruct (z =? 95); [apply good_err; discriminate|].
-    destruct (is_decimal z); [apply good_err; discriminate|].
-    cbn. lia. }
-  intros a Ha. gsplit.
-  destruct (z1 =? 95); [apply good_err; discriminate|].
-  eapply good_bind; [apply digits_good|]. intros a1 Ha1. gsplit.
-  destruct (Z.land (Z.lor z2 z6) 1 =? 0); [apply good_err; discriminate|].
-  destruct (z7 =? 46) eqn:E46.
-  - destruct (negb (z3 =? 0) && negb (z3 =? 48)).
-    + cbn. assert (z7 = 46) by lia. subst z7. rewrite msr_nonneg in Ha1 by lia.
-      rewrite msr_nonneg by lia. lia.
-    + eapply good_bind; [apply next_good|]. intros a2 Ha2. gsplit.
-      eapply good_weaken; [apply scan_number_tail_good|].
-      rewrite msr_nonneg in Ha1 by lia. lia.
-  - eapply good_weaken; [apply scan_number_tail_good|]. lia.
+  intros Hd. unfold scan_number. destruct sd; [apply scan_number_tail_good|].
+  specialize (Hd eq_refl).
+  destruct (ch =? 48) eqn:E0.
+  - (* leading 0: the next() after it already brings the measure down *)
+    repeat first
+      [ match goal with
+        | |- good _ _ (scan_number_tail _ _ _ _ _ _ _ _ _ _) =>
+            eapply good_weaken; [apply scan_number_tail_good|msr_lia]
+        end
+      | gstep ].
+  - cbn [lbind].
+    destruct (ch =? 95) eqn:E1; [apply good_err; discriminate|].
+    eapply good_bind.
+    { apply digits_good_strict. cbn. rewrite Hd. reflexivity. }
+    intros [[[[c r] acc] ds] inv] H.
+    repeat first
+      [ match goal with
+        | |- good _ _ (scan_number_tail _ _ _ _ _ _ _ _ _ _) =>
+            eapply good_weaken; [apply scan_number_tail_good|msr_lia]
+        end
+      | gstep ].
 Qed.
 
-Lemma braces_good n rr c rest : good p2 (length rest) (braces n rr c rest).
+Lemma braces_good n rr c rest : good pr (length rest) (braces n rr c rest).
 Proof.
   revert rr c rest. induction n as [|n IH]; intros rr c rest; cbn [braces].
-  - destruct (c =? 125); [cbn; unfold msr; destruct (rr <? 0); cbn; lia|apply good_err; discriminate].
-  - destruct (c =? 125); [cbn; unfold msr; destruct (rr <? 0); cbn; lia|].
+  - destruct (c =? 125); [cbn; lia|apply good_err; discriminate].
+  - destruct (c =? 125); [cbn; lia|].
     destruct (hex_char c <? 0); [apply good_err; discriminate|].
-    eapply good_bind; [apply next_good|]. intros a Ha. gsplit.
-    eapply good_weaken; [apply IH|]. unfold msr in Ha. destruct (z <? 0); cbn in Ha; lia.
+    eapply good_bind; [apply next_good|]. intros [c' r'] H.
+    eapply good_weaken; [apply IH|]. cbn [fst snd p2] in H. unfold msr in H.
+    destruct (c' <? 0); cbn in H; lia.
+Qed.
+
+Lemma decode_unicode_good rest : good pr (length rest) (decode_unicode rest).
+Proof.
+  unfold decode_unicode.
+  eapply good_bind; [apply next_good|]. intros [ch r] H.
+  destruct (ch =? 123).
+  - rewrite lbind_assoc. eapply good_bind; [apply next_good|]. intros [c r1] H1.
+    rewrite lbind_assoc. eapply good_bind; [apply braces_good|]. intros [rr r2] H2.
+    cbn [fst snd pr p2] in *.
+    repeat gstep.
+  - repeat gstep.
+Qed.
+
+Lemma scan_unicode_good rest buf : good p3 (length rest) (scan_unicode rest buf).
+Proof.
+  unfold scan_unicode.
+  eapply good_bind; [apply decode_unicode_good|]. intros [rr r] H. cbn [fst snd pr] in H.
+  destruct (is_surrogate rr).
+  - eapply good_bind; [apply next_good|]. intros [c1 r1] H1.
+    destruct (negb (c1 =? 92)); [apply good_err; discriminate|].
+    eapply good_bind; [apply next_good|]. intros [c2 r2] H2.
+    destruct (negb (c2 =? 117)); [apply good_err; discriminate|].
+    eapply good_bind; [apply decode_unicode_good|]. intros [rr1 r3] H3. cbn [fst snd pr] in H3.
+    destruct (utf16_pair rr rr1); [|apply good_err; discriminate].
+    repeat gstep.
+  - repeat gstep.
+Qed.
+
+Lemma scan_hex_good rest buf : good p3 (length rest) (scan_hex rest buf).
+Proof. unfold scan_hex. repeat gstep. Qed.
+
+Lemma scan_escape_good rest buf : good p3 (length rest) (scan_escape rest buf).
+Proof.
+  unfold scan_escape.
+  eapply good_bind; [apply next_good|]. intros [ch r] H.
+  repeat first
+    [ match goal with
+      | |- good _ _ (scan_hex _ _) => eapply good_weaken; [apply scan_hex_good|msr_lia]
+      | |- good _ _ (scan_unicode _ _) => eapply good_weaken; [apply scan_unicode_good|msr_lia]
+      end
+    | gstep ].
+Qed.
+
+(* ---- the two fuelled loops ---- *)
+Lemma string_loop_good fuel ch rest buf :
+  (msr ch rest < fuel)%nat -> good p3 (msr ch rest) (string_loop fuel ch rest buf).
+Proof.
+  revert ch rest buf. induction fuel as [|f IH]; intros ch rest buf Hf; [lia|].
+  cbn [string_loop].
+  destruct (ch =? 34) eqn:E1.
+  { repeat gstep. }
+  destruct ((ch =? 10) || (ch <? 0)) eqn:E2; [apply good_err; discriminate|].
+  assert (Hch: 0 <= ch) by lia. rewrite msr_nonneg in * by exact Hch.
+  destruct (ch =? 92) eqn:E3.
+  - eapply good_bind; [apply scan_escape_good|]. intros [[c r] b] H. cbn [fst snd p3] in H.
+    eapply good_weaken; [apply IH; lia|lia].
+  - eapply good_bind; [apply next_good|]. intros [c r] H. cbn [fst snd p2] in H.
+    eapply good_weaken; [apply IH; lia|lia].
+Qed.
+
+Lemma scan_string_good rest : good p3 (length rest) (scan_string rest).
+Proof.
+  unfold scan_string. eapply good_bind; [apply next_good|]. intros [c r] H. cbn [fst snd p2] in H.
+  eapply good_weaken; [apply string_loop_good; lia|lia].
+Qed.
+
+Lemma is_ident_rune_nonneg ch b : is_ident_rune L ch b = true -> 0 <= ch.
+Proof. unfold is_ident_rune. lia. Qed.
+
+Lemma ident_loop_good fuel ch rest buf :
+  (msr ch rest < fuel)%nat -> good p3 (msr ch rest) (ident_loop L fuel ch rest buf).
+Proof.
+  revert ch rest buf. induction fuel as [|f IH]; intros ch rest buf Hf; [lia|].
+  cbn [ident_loop].
+  destruct (is_ident_rune L ch false) eqn:E1; [|cbn; lia].
+  pose proof (is_ident_rune_nonneg _ _ E1) as Hch. rewrite msr_nonneg in * by exact Hch.
+  destruct (ch =? 92) eqn:E3.
+  - eapply good_bind; [apply scan_escape_good|]. intros [[c r] b] H. cbn [fst snd p3] in H.
+    eapply good_weaken; [apply IH; lia|lia].
+  - eapply good_bind; [apply next_good|]. intros [c r] H. cbn [fst snd p2] in H.
+    eapply good_weaken; [apply IH; lia|lia].
+Qed.
+
+Lemma scan_ident_good ch rest : good pt (length rest) (scan_ident L ch rest).
+Proof.
+  unfold scan_ident.
+  eapply good_bind with (pa := @p3 (list Z)) (na := length rest).
+  { destruct (ch =? 92); [apply scan_escape_good|]. repeat gstep. }
+  intros [[c r] b] H. cbn [fst snd p3] in H.
+  eapply good_bind with (pa := @p3 (list Z)) (na := length rest).
+  { eapply good_weaken; [apply ident_loop_good|exact H]. unfold msr. destruct (c <? 0); cbn; lia. }
+  intros [[c' r'] b'] H'. cbn [fst snd p3] in H'. cbn. exact H'.
+Qed.
+
+Lemma var_loop_good ch rest buf : good p3 (msr ch rest) (var_loop L ch rest buf).
+Proof.
+  revert ch buf. induction rest as [|c r IH]; intros ch buf; cbn [var_loop].
+  - destruct (is_variable_rune L ch); cbn; [unfold msr; cbn; lia|lia].
+  - destruct (is_variable_rune L ch) eqn:W; [|cbn; lia].
+    destruct (check_cases c) as [[E P]|[e [E N]]]; rewrite E; cbn [lbind]; [|exact N].
+    eapply good_weaken; [apply IH|].
+    rewrite msr_cons by exact P.
+    assert (0 <= ch) by (unfold is_variable_rune in W; lia).
+    rewrite msr_nonneg by assumption. cbn. lia.
+Qed.
+
+Lemma scan_variable_good rest : good pt (length rest) (scan_variable L rest).
+Proof.
+  unfold scan_variable.
+  eapply good_bind; [apply next_good|]. intros [ch r] H. cbn [fst snd p2] in H.
+  destruct (ch =? 34).
+  - eapply good_bind; [apply scan_string_good|]. intros [[c r'] b] H'. cbn [fst snd p3] in H'.
+    cbn. msr_lia.
+  - destruct (is_variable_rune L ch).
+    + eapply good_bind; [apply var_loop_good|]. intros [[c r'] b] H'. cbn [fst snd p3] in H'.
+      cbn. lia.
+    + cbn. exact H.
+Qed.
+
+Lemma comment_loop_good ch rest : good p2 (msr ch rest) (comment_loop ch rest).
+Proof.
+  revert ch. induction rest as [|c r IH]; intros ch; cbn [comment_loop].
+  - destruct (ch <? 0); apply good_err; discriminate.
+  - destruct (ch <? 0) eqn:E0; [apply good_err; discriminate|].
+    destruct (check_cases c) as [[E P]|[e [E N]]]; rewrite E; cbn [lbind]; [|exact N].
+    rewrite msr_nonneg by lia.
+    destruct ((ch =? 42) && (c =? 47)).
+    + eapply good_weaken; [apply next_good|]. cbn. lia.
+    + eapply good_weaken; [apply IH|]. rewrite msr_cons by exact P. cbn. lia.
+Qed.
+
+Lemma scan_comment_good rest : good p2 (length rest) (scan_comment rest).
+Proof.
+  unfold scan_comment. eapply good_bind; [apply next_good|]. intros [c r] H. cbn [fst snd p2] in H.
+  eapply good_weaken; [apply comment_loop_good|exact H].
+Qed.
+
+Lemma scan_operator_good ch rest : good pt (length rest) (scan_operator ch rest).
+Proof.
+  unfold scan_operator.
+  eapply good_bind; [apply next_good|]. intros [nx r] H. cbn [fst snd p2] in H.
+  repeat gstep.
+Qed.
+
+(* ---- Lex ---- *)
+Definition po3 (a : option token * Z * list Z) : Z * list Z := (snd (fst a), snd a).
+
+(* a token-producing call strictly decreases the measure *)
+Definition tok_good (n : nat) (x : lres (option token * Z * list Z)) : Prop :=
+  match x with
+  | LOk (Some _, c, r) => (msr c r < n)%nat
+  | LOk (None, c, r) => (msr c r <= n)%nat
+  | LErr e => e <> EOutOfFuel
+  end.
+
+Lemma tok_good_bind {A} (proj : A -> Z * list Z) n n' (x : lres A)
+      (k : A -> lres (option token * Z * list Z)) :
+  good proj n x ->
+  (forall a, (msr (fst (proj a)) (snd (proj a)) <= n)%nat -> tok_good n' (k a)) ->
+  tok_good n' (lbind x k).
+Proof. destruct x as [a|e]; cbn; intros H F; [apply F; exact H|exact H]. Qed.
+
+Lemma tok_good_weaken n n' x : tok_good n x -> (n <= n')%nat -> tok_good n' x.
+Proof. destruct x as [[[[t|] c] r]|e]; cbn; intros; try lia; assumption. Qed.
+
+Lemma lex_tok_good f ch rest :
+  (msr ch rest <= S f)%nat -> tok_good (msr ch rest) (lex_tok L (S f) ch rest).
+Proof.
+  revert ch rest. induction f as [|f IH]; intros ch rest Hf.
+  2: remember (S f) as g eqn:Hg.
+  all: cbn [lex_tok].
+  all: pose proof (skip_ws_good ch rest) as Hs.
+  all: destruct (skip_ws ch rest) as [[ch1 rest1]|e] eqn:Es; cbn [lbind]; [|exact Hs].
+  all: cbn [good fst snd p2] in Hs.
+  all: (eapply tok_good_weaken; [|exact Hs]).
+  all: clear Es.
+  all: match goal with |- tok_good _ ?g =>
+         match type of Hf with (_ <= ?b)%nat => assert (Hf1: (msr ch1 rest1 <= b)%nat) by lia end end.
+  all: clear Hs Hf ch rest.
+  all: destruct (is_ident_rune L ch1 true) eqn:E1;
+    [ pose proof (is_ident_rune_nonneg _ _ E1); rewrite msr_nonneg by assumption;
+      eapply tok_good_bind; [apply scan_ident_good|]; intros [[t c] r] H0; cbn in *; lia | ].
+  all: destruct (is_decimal ch1) eqn:E2;
+    [ assert (0 <= ch1) by (unfold is_decimal in E2; lia); rewrite msr_nonneg by assumption;
+      eapply tok_good_bind; [apply (scan_number_good ch1 rest1 false); intros _; exact E2|];
+      intros [[[k txt] c] r] H0; cbn in *; lia | ].
+  all: destruct (ch1 <? 0) eqn:E3; [cbn; lia|].
+  all: assert (Hch: 0 <= ch1) by lia; rewrite msr_nonneg in * by exact Hch.
+  all: destruct (ch1 =? 34);
+    [ eapply tok_good_bind; [apply scan_string_good|]; intros [[c r] b] H0; cbn in *; lia | ].
+  all: destruct (ch1 =? 36);
+    [ eapply tok_good_bind; [apply scan_variable_good|]; intros [[t c] r] H0; cbn in *; lia | ].
+  all: destruct (ch1 =? 46) eqn:E46;
+    [ destruct (ch1 =? 47) eqn:E47; [lia|];
+      pose proof (next_good rest1) as Hn;
+      destruct (next rest1) as [[c r]|e] eqn:En; cbn [lbind]; [|exact Hn];
+      cbn [good fst snd p2] in Hn;
+      destruct (is_decimal c) eqn:Ed;
+      [ eapply tok_good_bind; [apply (scan_number_good c r true); intros; discriminate|];
+        intros [[[k txt] c'] r'] H0; cbn in *; lia
+      | cbn; lia ]
+    | ].
+  all: destruct (ch1 =? 47) eqn:E47;
+    [ | eapply tok_good_bind; [apply scan_operator_good|]; intros [[t c] r] H0; cbn in *; lia ].
+  - (* f = 0: a comment needs at least two runes *)
+    pose proof (next_good rest1) as Hn.
+    destruct (next rest1) as [[c r]|e] eqn:En; cbn [lbind]; [|exact Hn].
+    cbn [good fst snd p2] in Hn.
+    destruct (c =? 42) eqn:E42; [|cbn; lia].
+    exfalso. rewrite msr_nonneg in Hn by lia. lia.
+  - pose proof (next_good rest1) as Hn.
+    destruct (next rest1) as [[c r]|e] eqn:En; cbn [lbind]; [|exact Hn].
+    cbn [good fst snd p2] in Hn.
+    destruct (c =? 42) eqn:E42; [|cbn; lia].
+    pose proof (scan_comment_good r) as Hc.
+    destruct (scan_comment r) as [[c' r']|e] eqn:Ec; cbn [lbind]; [|exact Hc].
+    cbn [good fst snd p2] in Hc.
+    rewrite msr_nonneg in Hn by lia.
+    assert (Hlt: (msr c' r' <= g)%nat) by lia.
+    specialize (IH c' r' Hlt).
+    destruct (lex_tok L g c' r') as [[[[t|] c2] r2]|e2]; cbn [tok_good] in *; try lia. exact IH.
+Qed.
+
+(* ---- the token loop ---- *)
+Definition has_fuel_err (ts : list token) : Prop :=
+  exists txt, In (mktok (TErr EOutOfFuel) txt) ts.
+
+Lemma norm_tok_not_err t e : tk t <> TErr e -> tk (norm_tok t) <> TErr e.
+Proof.
+  intros H. unfold norm_tok. destruct (tk t) eqn:K; try (rewrite K; exact H).
+  destruct ((57346 <=? c) && (c <=? 57393)) eqn:R; [|rewrite K; discriminate].
+  cbn [tk].
+  assert (Hn: (Z.to_nat (c - 57346) < 48)%nat) by lia.
+  remember (Z.to_nat (c - 57346)) as n eqn:En. clear En R K H.
+  do 48 (destruct n as [|n]; [cbn; discriminate|]). lia.
+Qed.
+
+(* ---- Lex never returns the pseudo-token TErr ---- *)
+Definition kind_ok (k : tkind) : Prop := match k with TErr _ => False | _ => True end.
+
+Definition resP {A} (P : A -> Prop) (x : lres A) : Prop :=
+  match x with LOk a => P a | LErr _ => True end.
+
+Lemma resP_bind_any {A B} (P : B -> Prop) (x : lres A) (f : A -> lres B) :
+  (forall a, resP P (f a)) -> resP P (lbind x f).
+Proof. destruct x; cbn; auto. Qed.
+
+Ltac kstep :=
+  match goal with
+  | |- resP _ (lbind (if ?c then _ else _) _) => destruct c
+  | |- resP _ (lbind (LOk _) _) => cbn [lbind]
+  | |- resP _ (lbind (LErr _) _) => exact I
+  | |- resP _ (lbind (lbind _ _) _) => rewrite lbind_assoc
+  | |- resP _ (lbind (let (_, _) := ?p in _) _) => destruct p
+  | |- resP _ (lbind _ _) => apply resP_bind_any; intros ?
+  | |- resP _ (if ?c then _ else _) => destruct c
+  | |- resP _ (let (_, _) := ?p in _) => destruct p
+  | |- resP _ (LErr _) => exact I
+  | |- resP _ (LOk _) => cbn [resP fst snd]; try exact I
+  end.
+
+Definition nk4 (a : tkind * list Z * Z * list Z) : Prop := kind_ok (fst (fst (fst a))).
+
+Lemma scan_number_tail_kind tok base prefix ch rest acc digSep inv sd :
+  kind_ok tok ->
+  resP nk4 (scan_number_tail L tok base prefix ch rest acc digSep inv sd).
+Proof.
+  intros K. unfold scan_number_tail. repeat kstep; unfold nk4; cbn; auto.
+Qed.
+
+Lemma scan_number_kind ch rest sd : resP nk4 (scan_number L ch rest sd).
+Proof.
+  unfold scan_number. destruct sd; [apply scan_number_tail_kind; exact I|].
+  repeat first
+    [ match goal with
+      | |- resP _ (scan_number_tail _ _ _ _ _ _ _ _ _ _) => apply scan_number_tail_kind; exact I
+      end
+    | kstep ]; unfold nk4; cbn; auto.
+Qed.
+
+Lemma ident_token_kind s : kind_ok (ident_token L s).
+Proof.
+  unfold ident_token.
+  repeat match goal with |- context [if ?c then _ else _] => destruct c end; try exact I.
+  destruct (assoc_str _ _); exact I.
+Qed.
+
+Definition nkt (a : token * Z * list Z) : Prop := kind_ok (tk (fst (fst a))).
+Definition nko (a : option token * Z * list Z) : Prop :=
+  match fst (fst a) with Some t => kind_ok (tk t) | None => True end.
+
+Lemma scan_ident_kind ch rest : resP nkt (scan_ident L ch rest).
+Proof.
+  unfold scan_ident. repeat kstep. all: unfold nkt; cbn; try apply ident_token_kind.
+Qed.
+
+Lemma scan_variable_kind rest : resP nkt (scan_variable L rest).
+Proof. unfold scan_variable. repeat kstep; unfold nkt; cbn; exact I. Qed.
+
+Lemma scan_operator_kind ch rest : resP nkt (scan_operator ch rest).
+Proof. unfold scan_operator. repeat kstep; unfold nkt; cbn; exact I. Qed.
+
+Lemma resP_bind {A B} (Q : A -> Prop) (P : B -> Prop) (x : lres A) (f : A -> lres B) :
+  resP Q x -> (forall a, Q a -> resP P (f a)) -> resP P (lbind x f).
+Proof. destruct x; cbn; auto. Qed.
+
+Lemma lex_tok_kind fuel ch rest : resP nko (lex_tok L fuel ch rest).
+Proof.
+  revert ch rest. induction fuel as [|f IH]; intros ch rest; [exact I|].
+  cbn [lex_tok].
+  apply resP_bind_any. intros [ch1 rest1].
+  destruct (is_ident_rune L ch1 true).
+  { eapply resP_bind; [apply scan_ident_kind|]. intros [[t c] r] K. exact K. }
+  destruct (is_decimal ch1).
+  { eapply resP_bind; [apply scan_number_kind|]. intros [[[k txt] c] r] K. exact K. }
+  destruct (ch1 <? 0); [exact I|].
+  destruct (ch1 =? 34).
+  { apply resP_bind_any. intros [[c r] b]. exact I. }
+  destruct (ch1 =? 36).
+  { eapply resP_bind; [apply scan_variable_kind|]. intros [[t c] r] K. exact K. }
+  destruct (ch1 =? 47).
+  { apply resP_bind_any. intros [c r]. destruct (c =? 42); [|exact I].
+    apply resP_bind_any. intros [c' r']. apply IH. }
+  destruct (ch1 =? 46).
+  { apply resP_bind_any. intros [c r]. destruct (is_decimal c); [|exact I].
+    eapply resP_bind; [apply scan_number_kind|]. intros [[[k txt] c'] r'] K. exact K. }
+  eapply resP_bind; [apply scan_operator_kind|]. intros [[t c] r] K. exact K.
+Qed.
+
+Lemma lex_all_total fuel ch rest :
+  (msr ch rest < fuel)%nat -> ~ has_fuel_err (lex_all L fuel ch rest).
+Proof.
+  revert ch rest. induction fuel as [|f IH]; intros ch rest Hf; [lia|].
+  cbn [lex_all].
+  assert (Hm: (msr ch rest <= S (length rest))%nat) by (unfold msr; destruct (ch <? 0); cbn; lia).
+  pose proof (lex_tok_good (length rest) ch rest Hm) as Ht.
+  destruct (lex_tok L (S (length rest)) ch rest) as [[[[t|] c] r]|e] eqn:El; cbn [tok_good] in Ht.
+  - intros [txt [Hin|Hin]].
+    + assert (K: tk (norm_tok t) <> TErr EOutOfFuel).
+      { apply norm_tok_not_err.
+        pose proof (lex_tok_kind (S (length rest)) ch rest) as Kd. rewrite El in Kd.
+        cbn in Kd. intro K. rewrite K in Kd. exact Kd. }
+      rewrite Hin in K. cbn in K. congruence.
+    + apply (IH c r); [lia|]. exists txt. exact Hin.
+  - intros [txt []].
+  - intros [txt [Hin|[]]]. unfold err_tok in Hin. inversion Hin. congruence.
+Qed.
+
+(* C04, lexer half.  The fuel bounds: lex_all gets (2 + number of runes),
+   lex_tok gets (1 + runes left), the identifier/string loops get
+   (2 + runes left).  None is ever exhausted. *)
+Theorem lex_runes_total l : ~ has_fuel_err (lex_runes L l).
+Proof.
+  unfold lex_runes.
+  pose proof (next_good l) as Hn.
+  destruct (next l) as [[ch rest]|e] eqn:En.
+  - cbn [good fst snd p2] in Hn. apply lex_all_total.
+    unfold msr in *. destruct (ch <? 0); cbn in *; lia.
+  - cbn in Hn. intros [txt [Hin|[]]]. unfold err_tok in Hin. inversion Hin. congruence.
+Qed.
+
+Theorem lex_total s : ~ has_fuel_err (lex L s).
+Proof. apply lex_runes_total. Qed.
+
+(* lex_one (a single Lex call on fresh input) never runs out of fuel either *)
+Theorem lex_one_total l : lex_one L l <> LErr EOutOfFuel.
+Proof.
+  unfold lex_one.
+  pose proof (next_good l) as Hn.
+  destruct (next l) as [[ch rest]|e] eqn:En; cbn [lbind].
+  - assert (Hm: (msr ch rest <= S (length rest))%nat) by (unfold msr; destruct (ch <? 0); cbn; lia).
+    pose proof (lex_tok_good (length rest) ch rest Hm) as Ht.
+    destruct (lex_tok L (S (length rest)) ch rest) as [[[[t|] c] r]|e]; cbn in Ht; congruence.
+  - cbn in Hn. congruence.
 Qed.
 End L.
+
+Print Assumptions lex_total.
+Print Assumptions lex_one_total.
